@@ -1143,6 +1143,72 @@ class FuncAnalysis:
             self.sink(st, "S8:value-folded-step-by-step-over-an-unordered-collection", T("seq", order=frozenset(lt)), f"`{acc} = {d}(... {acc} ...)` once per element of a collection without canonical order: the nesting of the result follows the visiting order")
             return
 
+    LOOP_MUTATORS = {"append", "extend", "insert", "add", "update", "setdefault", "appendleft", "push"}
+
+    def early_exit(self, loop: ast.For, taint):
+        """S9: a loop over a collection without canonical order that can stop early.  Stopping early is harmless when
+        every way of stopping gives the same outcome (the any / all idiom: one constant returned from inside the loop,
+        or a bare `break` in a loop that records nothing but constants).  It is order-dependent when the outcome names
+        the element that happened to come first: a `return <expression>`, two different outcomes for different
+        elements (return True here / return False there), or a `break` in a loop that has stored something computed
+        from its elements."""
+        lt = [t for t in taint if t.kind in (HASH, TEXT)]
+        if not lt:
+            return
+        outcomes: dict[str, ast.AST] = {}
+        stores = []
+        lvars = {n.id for n in ast.walk(loop.target) if isinstance(n, ast.Name)}
+
+        def by_unique_name(test) -> bool:
+            # `x.name == <anything>`: names are unique in a model (the discharge the sort keys use), so at most one
+            # element of the collection can take this exit - it is a lookup, not a choice
+            for c in ast.walk(test):
+                if isinstance(c, ast.Compare) and len(c.ops) == 1 and isinstance(c.ops[0], ast.Eq):
+                    for side in (c.left, c.comparators[0]):
+                        if isinstance(side, ast.Attribute) and side.attr == "name" and isinstance(side.value, ast.Name) and side.value.id in lvars:
+                            return True
+            return False
+
+        def walk(node, in_inner_loop, unique=False):
+            for ch in ast.iter_child_nodes(node):
+                if isinstance(ch, (ast.FunctionDef, ast.AsyncFunctionDef, ast.ClassDef, ast.Lambda)):
+                    continue
+                if isinstance(ch, ast.If) and by_unique_name(ch.test):
+                    for sub in ch.body:
+                        walk(ast.Module(body=[sub], type_ignores=[]), in_inner_loop, True)
+                    for sub in ch.orelse:
+                        walk(ast.Module(body=[sub], type_ignores=[]), in_inner_loop, unique)
+                    continue
+                if unique and isinstance(ch, (ast.Return, ast.Break)):
+                    continue
+                if isinstance(ch, ast.Return):
+                    v = ch.value
+                    k = "return " + (repr(None) if v is None else repr(v.value) if isinstance(v, ast.Constant) else "<expr>")
+                    outcomes.setdefault(k, ch)
+                elif isinstance(ch, ast.Break) and not in_inner_loop:
+                    outcomes.setdefault("break", ch)
+                elif isinstance(ch, (ast.Assign, ast.AugAssign, ast.AnnAssign)) and getattr(ch, "value", None) is not None and not isinstance(ch.value, ast.Constant):
+                    stores.append(ch)
+                elif isinstance(ch, ast.Call) and isinstance(ch.func, ast.Attribute) and ch.func.attr in self.LOOP_MUTATORS:
+                    stores.append(ch)
+                walk(ch, in_inner_loop or isinstance(ch, (ast.For, ast.While)), unique)
+
+        walk(ast.Module(body=list(loop.body), type_ignores=[]), False)
+        # `raise` is not an outcome here: which error is reported first is not part of what is generated
+        if not outcomes:
+            return
+        why = None
+        if "return <expr>" in outcomes:
+            why = (outcomes["return <expr>"], f"`{norm(outcomes['return <expr>'])[:60]}` hands back whatever the first suitable element gives")
+        elif len(outcomes) >= 2:
+            ks = sorted(outcomes)
+            why = (outcomes[ks[0]], f"the loop can stop with different outcomes ({', '.join(ks)}): which one is reached first depends on the visiting order")
+        elif "break" in outcomes and stores:
+            why = (outcomes["break"], f"the loop stops at the first suitable element after recording `{norm(stores[0])[:60]}`: what is recorded depends on which element comes first")
+        if why is None:
+            return
+        self.sink(why[0], "S9:early-exit-from-a-loop-over-an-unordered-collection", T("seq", order=frozenset(lt)), why[1])
+
     def self_guarded_accumulation(self, node, acc: str):
         """S7: a set filled in a loop without canonical order, where a condition in that loop reads the set itself."""
         if not (self.cur_loop_taint() and any(t.kind in (HASH, TEXT) for t in self.cur_loop_taint())):
@@ -1220,6 +1286,7 @@ class FuncAnalysis:
             self.bind_iter_target(st.target, st.iter, ti, el)
             self.loop_taints.append(frozenset(taint))
             self.loop_nodes.append(st)
+            self.early_exit(st, taint)
             self.block(st.body)
             # second pass so that effects of later statements on earlier ones are seen (loop-carried)
             self.block(st.body)
